@@ -117,7 +117,7 @@ def run(ctx):
         confs = [
             dict(name="ties", reals=["a", "b", "c", "d"], cplx=[], V=[1, 2], depth=4, walk=40000),
             dict(name="complex", reals=["a"], cplx=["z", "w"], V=[-1, 1, 2], depth=3, walk=40000),
-            dict(name="mixed", reals=["a", "b"], cplx=["z"], V=[-1, 0, 2], depth=4, walk=30000),
+            dict(name="mixed", reals=["a", "b"], cplx=["z"], V=[-1, 0, 2], depth=3, walk=30000),
         ]
         prop_confs = [
             dict(name="ties", reals=["a", "b", "c", "d"], cplx=[], V=[1, 2], depth=6),
